@@ -13,6 +13,9 @@ Streams (S3, model vs implementation)
   spec-bytes         Lean `Spec.encodeMsg` against the independent Python reference serializer
                      (harness/c03_ref.py), both byte orders, shuffled fields, unknown field codes
   parse-foreign      parseMessage(reference bytes) against the model
+  parse-wrongtype    reference bytes in which known header fields carry a variant of another basic type
+                     (a signature sent as STRING of 300 characters or as UINT32, a path as STRING, ...), unknown
+                     message types, truncated messages: outside the statement (no oracle), model vs implementation only
 Oracle (S4, implementation only; nothing from the model):
   * wf_parse (strict structural parser written from the specification) accepts rawMessage; type code,
     flag bits, version, serial = the fresh counter value != 0, body length word, the header fields are
@@ -30,7 +33,7 @@ import struct
 from harness import c03_ref as R
 from harness import valcodec as vc
 
-STREAMS = ['build', 'construct-malformed', 'parse-own', 'spec-bytes', 'parse-foreign']
+STREAMS = ['build', 'construct-malformed', 'parse-own', 'spec-bytes', 'parse-foreign', 'parse-wrongtype']
 THEOREMS = ['marshal_wellformed', 'serial_fresh', 'parse_marshal', 'parse_foreign', 'cannot_construct']
 TRUSTED_BASE = [
     'message body bytes: the model takes the bytes marshal.marshal produced as an input (opaque body codec; '
@@ -1000,6 +1003,92 @@ def run_foreign_cases(ctx, message, cases):
                    extra={'kind': 'foreign', 'big': big, 'serial': serial, 'fields': fields_json(fields)})
 
 
+def g_basic_val(rng, c):
+    if c in INT_RANGE:
+        return g_int(rng, c)
+    if c == 'b':
+        return rng.random() < 0.5
+    if c == 'd':
+        return rng.choice(FLOATS)
+    if c == 's':
+        return rng.choice([g_text(rng).replace('\0', ''), 's' * 255, 's' * 256, 'i' * 300, '', 'i'])
+    if c == 'o':
+        return g_path(rng)
+    return rng.choice(SIGS + ['i' * 255])
+
+
+def run_wrongtype(ctx, marshal, message, n):
+    """Messages outside the statement: S3 only (the model must mirror what parseMessage does with them)."""
+    rng = ctx.rng
+    raws = []
+    for _ in range(n):
+        while True:
+            x = g_case(rng, marshal, stream='foreign')
+            if in_domain(x):
+                break
+        big = rng.random() < 0.5
+        fds = expected_fds(x)
+        fields = foreign_fields(x, len(fds), rng, g_foreign_extra(rng, True))
+        kind = rng.choice(['type', 'type', 'type', 'dup', 'mtype', 'trunc', 'order'])
+        mtype = MTYPE[x['cls']]
+        if kind == 'type' and fields:
+            i = rng.randrange(len(fields))
+            c = rng.choice('ybnqiuxtdsog')
+            fields[i] = (fields[i][0] if rng.random() < 0.8 else 8, c, g_basic_val(rng, c))
+        elif kind == 'dup' and fields:
+            code, sg, val = rng.choice(fields)
+            fields.insert(rng.randrange(len(fields) + 1), (code, sg, g_basic_val(rng, sg)))
+        elif kind == 'mtype':
+            mtype = rng.choice([0, 5, 6, 99, 255])
+        flags = rng.choice([0, 1, 2, 3, 4, 7, 255])
+        raw, rfds = R.ref_message(mtype, flags, rng.choice([1, 7, 2 ** 32 - 1]), fields, x['signature'], case_abs(x), big,
+                                  version=rng.choice([1, 1, 1, 0, 2]))
+        if kind == 'trunc':
+            raw = raw[:rng.randrange(len(raw) + 1)]
+        elif kind == 'order':
+            raw = bytes([rng.choice([0, ord('b'), ord('L'), 255])]) + raw[1:]
+        raws.append((raw, rfds if rng.random() < 0.8 else None, kind))
+    out = ctx.model([parse_line(raw, fds) for raw, fds, _ in raws])
+    for i, (raw, fds, kind) in enumerate(raws):
+        v, pm = parse_real(message, raw, fds)
+        ctx.impl_trace()
+        ctx.case('parse-wrongtype', sample=None)
+        ctx.stat('wrongtype:%s:%s' % (kind, 'ok' if v['ok'] else v['err']))
+        if out is not None:
+            mv = view_from_model(out[i])
+            # body decoding errors belong to the codec model (C01/C05): once the header is through, compare the header part
+            if mv != v and not (mv.get('ok') and not v['ok'] and kind in ('type', 'dup', 'trunc', 'order')
+                                and body_stage_error(message, raw, fds)):
+                ctx.disagree('parse-wrongtype', {'kind': 'raw', 'raw': hexs(raw), 'fds': fds, 'what': kind}, mv, v)
+
+
+def body_stage_error(message, raw, fds):
+    """Did parseMessage fail inside the body decode (after the signature check)?  Found by replacing the body
+    decoder by a stub: if the call then succeeds, the header stage was fine."""
+    from txdbus import marshal as mm
+    real = mm.unmarshal
+    state = {'depth': 0, 'top': 0}
+
+    def stub(sig, data, offset=0, lendian=True, oobFDs=None):
+        if state['depth'] == 0:
+            state['top'] += 1
+            if state['top'] == 2:          # the second top-level call is the body decode
+                return 0, []
+        state['depth'] += 1
+        try:
+            return real(sig, data, offset, lendian, oobFDs)
+        finally:
+            state['depth'] -= 1
+    mm.unmarshal = stub
+    try:
+        message.parseMessage(raw, fds)
+        return True
+    except Exception:
+        return False
+    finally:
+        mm.unmarshal = real
+
+
 def body_of(raw, big):
     n = int.from_bytes(raw[4:8], 'big' if big else 'little')
     return raw[len(raw) - n:] if n else b''
@@ -1090,6 +1179,14 @@ def replay_case(ctx, marshal, message, data):
         basic = all(len(s) == 1 and s != 'v' for _, s, _ in fields)
         run_foreign_cases(ctx, message, [(x, data['big'], data['serial'], fields, basic)])
         return
+    if kind == 'raw':
+        raw = vc.hex_bytes(data['raw'])
+        out = ctx.model([parse_line(raw, data['fds'])])
+        v, pm = parse_real(message, raw, data['fds'])
+        ctx.case('parse-wrongtype', sample=None)
+        if out is not None and view_from_model(out[0]) != v and not body_stage_error(message, raw, data['fds']):
+            ctx.disagree('parse-wrongtype', data, view_from_model(out[0]), v)
+        return
     if kind in ('serial-sequence', 'real-limit'):
         if kind == 'real-limit':
             run_real_limit(ctx, marshal, message)
@@ -1132,6 +1229,7 @@ def run(ctx):
         mal = run_malformed(ctx, marshal, message, ctx.scale(quick=700, thorough=12000))
         run_parse_own(ctx, message, mal)
         run_foreign(ctx, marshal, message, ctx.scale(quick=800, thorough=16000))
+        run_wrongtype(ctx, marshal, message, ctx.scale(quick=500, thorough=8000))
         for _ in range(ctx.scale(quick=3, thorough=20)):
             run_serial_sequence(ctx, marshal, message, 150)
         if ctx.tier == 'thorough' and not ctx.widen:
